@@ -14,6 +14,7 @@ L5 (parse side): `fromCst` for the container fragment — a transliteration, bug
                                  `_collect_comment_trivia` of `trivia.py`)
   * `expressions/with_statement.py` `WithStatement.from_cst`, `expressions/assertion.py` `Assertion.from_cst`
   * `expressions/select.py`      `Select.from_cst`
+  * `expressions/unary.py`       `UnaryExpression.from_cst`
   * `expressions/function/definition.py` `FunctionDefinition.from_cst` (identifier argument, `_collect_colon_trivia`)
                                  (with `split_inline_comments`, `append_gap_trivia`)
 
@@ -70,6 +71,8 @@ inductive Expr where
       breaks_after_semicolon, output)` — `argument_set_is_multiline = False`, no named attribute set, no
       comment after the colon -/
   | lam (name : Text) (bcc : List Trivia) (bcGap : Text) (breaks : Nat) (body : Expr) (before after : List Trivia)
+  /-- `UnaryExpression(operator, expression, operand_gap, between)` -/
+  | un (op : Text) (expr : Expr) (gap : Text) (between : List Trivia) (before after : List Trivia)
 
 /-- `NixSourceCode(expressions, trailing)` -/
 structure Src where
@@ -77,6 +80,7 @@ structure Src where
   trailing : List Trivia
 
 def Expr.before : Expr → List Trivia
+  | .un _ _ _ _ b _ => b
   | .lam _ _ _ _ _ b _ => b
   | .leaf _ _ b _ => b
   | .list _ _ _ b _ => b
@@ -90,6 +94,7 @@ def Expr.before : Expr → List Trivia
   | .selOr _ _ _ _ _ _ _ b _ => b
 
 def Expr.after : Expr → List Trivia
+  | .un _ _ _ _ _ a => a
   | .lam _ _ _ _ _ _ a => a
   | .leaf _ _ _ a => a
   | .list _ _ _ _ a => a
@@ -103,6 +108,7 @@ def Expr.after : Expr → List Trivia
   | .selOr _ _ _ _ _ _ _ _ a => a
 
 def Expr.setBefore : Expr → List Trivia → Expr
+  | .un o e g bt _ a, b => .un o e g bt b a
   | .lam n c g k bd _ a, b => .lam n c g k bd b a
   | .leaf k t _ a, b => .leaf k t b a
   | .list v m i _ a, b => .list v m i b a
@@ -116,6 +122,7 @@ def Expr.setBefore : Expr → List Trivia → Expr
   | .selOr e ats g ab d dg db _ a, b => .selOr e ats g ab d dg db b a
 
 def Expr.setAfter : Expr → List Trivia → Expr
+  | .un o e g bt b _, a => .un o e g bt b a
   | .lam n c g k bd b _, a => .lam n c g k bd b a
   | .leaf k t b _, a => .leaf k t b a
   | .list v m i b _, a => .list v m i b a
@@ -424,6 +431,12 @@ def Cst.parse : Cst → Except Err Expr
     match b.parse with
     | .error err => .error err
     | .ok be => .ok (lamFromCst n c1 g1 g2 be)
+  | .un op c g e =>
+    -- `UnaryExpression.from_cst`: between = collect_comment_trivia_between(node, comments, operator_node,
+    -- expression_node, allow_inline=True); operand_gap = the gap in front of the operand
+    match e.parse with
+    | .error err => .error err
+    | .ok ee => .ok (.un op ee g (collectTrivia c g) [] [])
 /-- the loop of `parse_delimited_sequence` -/
 def Items.parseSeq : Items → Mode → SeqSt → Except Err SeqSt
   | .nil, _, st => .ok st
